@@ -342,6 +342,14 @@ class Check(PropertyCheck):
         for r in RACES:
             cases.append({"n": 2, "script": ["silence"] * 4 + [r]})
             cases.append({"n": 1, "script": ["nak"] * 4 + [r]})
+        # a link that has been fast for a while (the adaptive timeout has decayed towards its minimum), then NAK / silence
+        # mixes: the timeout used for every repeat stays within the protocol's bounds
+        for warm in (10, 11, 12, 14, 20) if tier == "quick" else range(8, 31):
+            for sc in (["nak", "silence", "ack"], ["nak", "nak", "silence", "silence", "ack"], ["silence", "nak", "silence", "ack"],
+                       ["nak", "silence", "nak", "silence", "nak"]):
+                cases.append({"n": 1, "script": sc, "warm": warm})
+        for sc3 in (["nak"] * 4 + ["ack"], ["nak"] * 3 + ["ack"]):
+            cases.append({"n": 3, "script": sc3 + sc3 + ["nak", "silence", "ack"]})
         # acknowledgement numbers that do not cover the outstanding frame, every distance, from every frame number
         for warm in range(0, 8):
             for k in (0, 2, 3, 4, 5, 6, 7):
